@@ -8,8 +8,8 @@ The invariant has three components, all relative to the ghost directory `g` of t
 
 * the semantic one — `Inv` (no batch / dead batch in the slot) or `BInvX` (live batch), with the
   denoted mapping equal to the specification's;
-* the state of the merge directory — nothing adoptable (`plan = none`: no merge directory, or one
-  without a valid marker) or `MergeOutB` for `g`;
+* the state of the merge directory — `NoMarker` (no merge directory, or one without a marker: what a
+  `Merge` that reported an error leaves) or `MergeOutB` for `g`;
 * sealedness — the replay of `g`'s log leaves nothing parked (`NoPend`): every batch in the log has
   its sealing record.  This makes batch-id freshness a THEOREM for crash-free histories: `NewBatch`
   needs `pendingGet … id = []`, and that holds for EVERY id — also for one that was used before
